@@ -17,7 +17,7 @@ from .c01 import _Case, _topo
 PROP = "C02"
 LEVEL = "exploration"
 RULE = (
-    "case = (date stratum >= 2015, closed populations A and B, interleaving, relabelling rho). "
+    "case = (date stratum >= 2015 or one of the sampled strata of 2005-2014 with the screened node universe, closed populations A and B, interleaving, relabelling rho). "
     "Non-trivial (a): B has a multi-person household and a B-row precedes the first A-row; "
     "(b): rho is not order-preserving on p_id.  Distinct = digest of the case."
 )
